@@ -10,7 +10,8 @@ vars == <<l>>
 
 \* bookkeeping namespaces the tool must never forward (bytes of "redis-gunyu-checkpoint", "/redis-gunyu", "redis-gunyu-bisync:")
 Reserved == << <<114,101,100,105,115,45,103,117,110,121,117,45,99,104,101,99,107,112,111,105,110,116>>,
-               <<47,114,101,100,105,115,45,103,117,110,121,117>> >>
+               <<47,114,101,100,105,115,45,103,117,110,121,117>>,
+               <<114,101,100,105,115,45,103,117,110,121,117,45,98,105,115,121,110,99,58>> >>
 
 Cfg(r) == [white |-> r.white, black |-> r.black, pw |-> r.pw, pb |-> IF r.e2e THEN r.pb \o Reserved ELSE r.pb]
 
